@@ -681,6 +681,12 @@ func openFlags(c *Check, r *Repo) {
 		}
 		instrsOf(f, func(in ssa.Instruction) {
 			cl, ok := in.(*ssa.Call)
+			if ok && calleeName(cl) == "os.Create" {
+				// os.Create is OpenFile(name, O_RDWR|O_CREATE|O_TRUNC, 0666)
+				n++
+				c.OK("R-open-flags", fnName(f)+"/os.Create", r.pos(cl.Pos()), "os.Create opens read-write, creates and truncates")
+				return
+			}
 			if !ok || calleeName(cl) != "os.OpenFile" {
 				return
 			}
